@@ -71,6 +71,9 @@ func vt(v reflect.Value, depth int) vtree {
 		}
 		return vtree{"t": "map", "pairs": pairs}
 	case reflect.Struct:
+		if v.Type().Name() == "Media" && strings.Contains(v.Type().PkgPath(), "concise-encoding/types") {
+			return vtree{"t": "s", "v": absValue(v.Interface())} // one array-like element, not a container
+		}
 		pp := v.Type().PkgPath()
 		if pp != "main" && !strings.Contains(pp, "concise-encoding/types") && pp != "" {
 			return vtree{"t": "s", "v": absValue(v.Interface())}
@@ -226,7 +229,7 @@ func checkC09(c *Check) {
 	var buf bytes.Buffer
 	enc := json.NewEncoder(&buf)
 	for _, cs := range cases {
-		enc.Encode(map[string]interface{}{"p": cs.P, "f": cs.F})
+		enc.Encode(map[string]interface{}{"kind": cs.Kind, "p": cs.P, "f": cs.F})
 	}
 	res, err := RunTLC(TLCRun{Module: "ValueTrace", Cfg: "SPECIFICATION Spec\nPOSTCONDITION AllAccepted\nCHECK_DEADLOCK FALSE\n", Extra: map[string]string{"pairs.ndjson": buf.String()}, Workers: 1, Timeout: 20 * time.Minute})
 	if err != nil {
